@@ -118,8 +118,8 @@ func Run(dir string, timeout time.Duration, stdin string, bin string, args ...st
 func RunEnv(dir string, timeout time.Duration, stdin string, extraEnv []string, bin string, args ...string) Result {
 	ctx, cancel := context.WithTimeout(context.Background(), timeout)
 	defer cancel()
-	// ulimit -v in KB: 4 GB
-	sh := "ulimit -v 4194304; exec \"$0\" \"$@\""
+	// ulimit -v in KB: 2 GB (fc needs a few MB; 16 workers must not exhaust the machine)
+	sh := "ulimit -v 2097152; exec \"$0\" \"$@\""
 	cmd := exec.CommandContext(ctx, "sh", append([]string{"-c", sh, bin}, args...)...)
 	cmd.Dir = dir
 	if extraEnv != nil {
